@@ -669,6 +669,11 @@ func connSupports(typ, from, to string) bool {
 		return true
 	case "l2m":
 		return from == sigLogs && to == sigMetrics
+	case "asym":
+		// an asymmetric matrix over several pairs: only "upwards" in the order logs < traces < metrics < profiles,
+		// plus logs -> logs
+		idx := map[string]int{sigLogs: 0, sigTraces: 1, sigMetrics: 2, sigProfiles: 3}
+		return idx[from] < idx[to] || (from == sigLogs && to == sigLogs)
 	}
 	return false
 }
@@ -769,6 +774,7 @@ func (w *World) connectorFactories() map[component.Type]connector.Factory {
 		component.MustNewType("fwd"):     mk("fwd"),
 		component.MustNewType("conv"):    mk("conv"),
 		component.MustNewType("l2m"):     mk("l2m"),
+		component.MustNewType("asym"):    mk("asym"),
 	}
 }
 
